@@ -27,7 +27,7 @@ CHECKS = {
          "Reduced alphabets for the larger sizes; well-formed JSON of the wrong type not examined.",
          "bounded-exhaustive program (configuration tree) enumeration against a reference interpreter", "enum", "DESIGN.md §7 C12"),
  "C13": ("model_checking",
-         "Part 1: every verifier-bearing configuration tree with <=3 (quick) / <=4 (thorough) nodes over the 7 verifiers, fifo.Group and filters (true branch, else branch, both), configured through martianhttp.Modifier and queried through verify.Handler/ResetHandler, run on every history of length <=4/5 over {traffic messages making each expectation met/unmet incl. API-marked ones, GET verify, POST reset} against a per-verifier list model. Part 2: 2-4 thread scenarios (traffic, query, reset) under the gosim scheduler, all interleavings for the small ones and preemption-bounded for the rest, interval oracle (nothing lost, duplicated, phantom or stale). Part 3 (auxiliary, free-running -race on the unrewritten tree): the same bodies, race reports in martian code are violations.",
+         "Part 1: every verifier-bearing configuration tree with <=3 (quick) / <=4 (thorough) nodes over the 7 verifiers, fifo.Group and filters (true branch, else branch, both), configured through martianhttp.Modifier and queried through verify.Handler/ResetHandler, run on every history of length <=4 (quick) / <=5 for trees of up to 3 nodes and <=4 for 4-node trees (thorough) over {traffic messages making each expectation met/unmet incl. API-marked ones, GET verify, POST reset} against a per-verifier list model. Part 2: 2-4 thread scenarios (traffic, query, reset) under the gosim scheduler, all interleavings for the small ones and preemption-bounded for the rest, interval oracle (nothing lost, duplicated, phantom or stale). Part 3 (auxiliary, free-running -race on the unrewritten tree): the same bodies, race reports in martian code are violations.",
          "One filter type; same-kind leaves share parameters; the race pass is sampling (auxiliary, only because the statement says 'free of data races').",
          "bounded-exhaustive program x history enumeration + stateless schedule enumeration (gosim) + auxiliary race-detector pass", "gosim", "DESIGN.md §7 C13"),
  "C14": ("model_checking",
